@@ -25,4 +25,39 @@ CHECKS = {
             dict(pkg="seq", run="TestC05Real", checks_quick=40, checks_thorough=600, shards_quick=4, shards_thorough=8, timeout_quick=300, timeout_thorough=1800),
         ],
     ),
+    "C12": dict(
+        level="exploration",
+        technique="property-based round-trip and differential testing (rapid): production codec vs an independent encoder written from the documented format; held-result aliasing check through a real WAL on SimFS; codec-identity matrix",
+        rule="rapid-generated raft.Log values (varint boundary Index/Term, any Type, nil/empty/boundary-length Data and Extensions around 64KiB, zero/UTC/zoned/monotonic times) checked for Decode(Encode(l))==l and byte equality with the reference encoder; WAL store/read with a held GetLog result compared after 1-50 later reads and scribbling; codec-ID matrix (default, reserved, custom; same vs different on reopen). Non-trivial = a boundary-valued field or a slice crossing 64KiB, every aliasing and codec-ID case; distinct = FNV-64 of the serialised case",
+        expect_classes=["codec-boundary-value", "crosses-64KiB", "time-zone", "time-mono", "reserved-id", "different-codec", "same-codec-custom=true", "same-codec-custom=false"],
+        assumptions=COMMON_ASSUME + SIM_ASSUME + ["AppendedAt domain = times that the Go standard library itself round-trips through MarshalBinary/UnmarshalBinary (it does not for zone offsets with a negative seconds component)", "a time with a monotonic reading can only be produced from time.Now(); its wall value does not influence the verdict"],
+        jobs=[
+            dict(pkg="seq", run="TestC12Codec", checks_quick=4000, checks_thorough=100000, shards_quick=4, shards_thorough=16, timeout_quick=300, timeout_thorough=1800),
+            dict(pkg="seq", run="TestC12Alias", checks_quick=300, checks_thorough=5000, shards_quick=4, shards_thorough=16, timeout_quick=300, timeout_thorough=1800),
+            dict(pkg="seq", run="TestC12CodecID", checks_quick=400, checks_thorough=4000, shards_quick=2, shards_thorough=8, timeout_quick=300, timeout_thorough=1800),
+        ],
+    ),
+    "C15": dict(
+        level="exploration",
+        technique="property-based boundary-value testing (rapid): entry encodings solved to exact sizes around each documented boundary; oracle = accept-then-readable (before and after reopen) or refuse-and-invisible",
+        rule="batches whose entries have exact encoded sizes drawn from neighbourhoods of 0..24, 64KiB+-24, segmentSize+-48 (entries larger than a whole segment included), MaxEntrySize {-4096,-1,0,+1,+4096}, crossed with segment sizes {64,4096,64KiB,1MiB,64MiB}, batch position and pre/post appends, on SimFS and the real fs. Non-trivial = some entry within 16 bytes of a named boundary; distinct = FNV-64 of the case",
+        expect_classes=["entry-larger-than-segment", "near-64KiB", "near-MaxEntrySize+0", "near-MaxEntrySize+1", "near-MaxEntrySize-1", "batch-refused"],
+        assumptions=COMMON_ASSUME + SIM_ASSUME + ["batches whose total size exceeds 4GiB (uint32 file offsets) are not generated"],
+        jobs=[
+            dict(pkg="seq", run="TestC15Sim", checks_quick=250, checks_thorough=4000, shards_quick=6, shards_thorough=16, timeout_quick=300, timeout_thorough=1800),
+            dict(pkg="seq", run="TestC15Real", checks_quick=40, checks_thorough=600, shards_quick=2, shards_thorough=4, timeout_quick=300, timeout_thorough=1800),
+            dict(pkg="seq", run="TestC15Big", checks_quick=6, checks_thorough=30, shards_quick=2, shards_thorough=4, shrinktime="5s", timeout_quick=400, timeout_thorough=1800),
+        ],
+    ),
+    "C20": dict(
+        level="exploration",
+        technique="model-based stateful property testing (rapid) of every counter against true totals computed by the reference model, with the panicking AtomicCollector as undeclared-name oracle; plus an exhaustive go/parser scan of every emitting call site against MetricDefinitions",
+        rule="rapid-generated op sequences (appends, invalid appends, DeleteRange incl. (0,x) and everything-deleting on 1-entry segments, reads, stable Set/Get/Uint64, reopen) on SimFS with metrics.NewAtomicCollector(wal.MetricDefinitions); after every step all counters must equal the totals derived from the model (entries, reference-encoded bytes, calls, rotations seen in committed metadata, entries actually removed). Non-trivial = a truncation that empties the log or meets an empty tail segment; distinct = FNV-64 of the case. The call-site scan is exhaustive over non-test sources",
+        expect_classes=["rotation", "failed-append", "truncation-emptied-log", "truncation-met-empty-tail", "del-from-zero-noop"],
+        assumptions=COMMON_ASSUME + SIM_ASSUME + ["metric names passed as non-literals cannot be decided by the scan (none today; counted as callsite-nonliteral-undecidable)"],
+        jobs=[
+            dict(pkg="seq", run="TestC20Counters", checks_quick=500, checks_thorough=8000, shards_quick=6, shards_thorough=16, timeout_quick=300, timeout_thorough=1800),
+            dict(pkg="seq", run="TestC20CallSites|TestC20GoMetrics", rapid=False, shards=1, timeout=120),
+        ],
+    ),
 }
